@@ -600,7 +600,11 @@ func (p *c11) Run(c *verifsim.Chooser, st *Stats, render bool) *Outcome {
 		// the parked tasks never finish: their data must not be touched and
 		// this process must not be used for further runs
 		o.Poisoned = true
-		o.violate("C11/deadlock", "all unfinished tasks blocked on a mutex", "no runnable task while some are unfinished (a Run/Prepare call never returns)")
+		if s.DeadlockUncertain {
+			o.violate("C11/harness", "deadlock involving an unbuffered channel or a select", "every unfinished task is waiting, but at least one of them in an operation the simulator only approximates (rendezvous on an unbuffered channel, select): it cannot tell whether the real program would deadlock")
+		} else {
+			o.violate("C11/deadlock", "all unfinished tasks blocked on a mutex", "no runnable task while some are unfinished (a Run/Prepare call never returns)")
+		}
 		if render {
 			o.Sample = p.render(s, evals, 0, nil)
 		}
